@@ -22,7 +22,7 @@
    implementation they are observed by harness/c04.py. *)
 From Coq Require Import List Bool ZArith NArith Init.Byte.
 From HL7 Require Import Lib.Str Model.Ec Model.Result Model.Ref Model.Tree Model.Parser Model.Encode Model.Leaf
-                        Model.MsgTree Model.Validate Proofs.ValidateFacts Gen.Params.
+                        Model.MsgTree Model.Validate Proofs.ValidateFacts Proofs.ValidateZ Gen.Params.
 From HL7 Require Gen.Tables_v2_5.
 Import ListNotations.
 Open Scope bs_scope.
@@ -134,6 +134,177 @@ Theorem C04_unknown_message : forall t lvl e m, m_name m = None ->
 Proof. exact msg_unknown. Qed.
 Print Assumptions C04_unknown_message.
 
+(* ================================================================================================ *)
+(* Z MESSAGES (the message name is a Z name, e.g. ZDT_Z01: Message.is_z_element()).  validation.py sends
+   them through _check_z_element: the message's own reference (the empty ('sequence', ()) of
+   Message.__init__, or whatever a message profile declares under that name) is never read; every child is
+   validated on its own with no reference - a standard segment against the entry of its name in the
+   segment table of the version, a Z segment field by field, a group against the group table, anything
+   else draws "Unknown element" / "Invalid element"; nothing is required, limited or foreign at the
+   message level.  Proofs: Proofs/ValidateZ.v.
+     z_child_log t lvl e mn k      the log of one child k of the Z message mn:
+                                     NSeg s, Z segment     -> z_seg_log t e s  (its fields, one by one)
+                                     NSeg s, otherwise     -> std_seg_log t e s = v_seg t e (Some r) s for the
+                                                              table entry r of s's name, [InvalidElement] if none
+                                     unnamed group         -> [UnknownElement (Some mn) None]
+                                     group g               -> v_node against the group table's entry of g
+     table_seg t s                 s is a Z segment or carries the table entry of its name as its structure
+                                   (every segment created without a reference: all those of a parsed Z message) *)
+
+(* the error log of a Z message: the concatenation (seq_res: in order, the first exception wins) of the logs
+   of its children *)
+Theorem C04_z_message_log : forall t lvl e m mn,
+  m_name m = Some mn -> valid_z_message_name mn = true ->
+  validate_message_log t lvl e m = seq_res (map (z_child_log t lvl e mn) (m_children m)).
+Proof. exact z_message_log. Qed.
+Print Assumptions C04_z_message_log.
+
+(* spelled out on the error lists: when no child raises, the errors are the children's, concatenated *)
+Theorem C04_z_message_errors : forall t lvl e m mn ess,
+  m_name m = Some mn -> valid_z_message_name mn = true ->
+  Forall2 (fun k es => lift_errors (z_child_log t lvl e mn k) = Ok es) (m_children m) ess ->
+  validate_message_errors t lvl e m = Ok (concat ess).
+Proof. exact z_message_errors_concat. Qed.
+Print Assumptions C04_z_message_errors.
+
+(* the log of a segment child is the log of Segment.validate() on that segment alone; so a Z message made of
+   segments is validated segment by segment *)
+Theorem C04_z_message_segmentwise : forall t lvl e m mn segs,
+  m_name m = Some mn -> valid_z_message_name mn = true ->
+  m_children m = map NSeg segs -> (forall s, In s segs -> table_seg t s) ->
+  validate_message_log t lvl e m = seq_res (map (validate_seg_log t e) segs).
+Proof. exact z_message_segmentwise. Qed.
+Print Assumptions C04_z_message_segmentwise.
+
+(* soundness: every standard segment validates on its own (C04_sound_complete says when), every other child
+   is a Z segment that validates on its own -> the Z message validates *)
+Theorem C04_z_message_sound : forall t lvl e m mn segs,
+  m_name m = Some mn -> valid_z_message_name mn = true ->
+  m_children m = map NSeg segs ->
+  (forall s, In s segs -> table_seg t s /\ validate_errors t e s = Ok []) ->
+  validate_message_errors t lvl e m = Ok [].
+Proof. exact z_message_sound. Qed.
+Print Assumptions C04_z_message_sound.
+
+(* soundness and completeness against the declarative reading: a Z message validates exactly when each of
+   its segments conforms to the table entry of its name *)
+Theorem C04_z_message_sound_complete : forall t lvl e m mn segs,
+  m_name m = Some mn -> valid_z_message_name mn = true ->
+  m_children m = map NSeg segs ->
+  (forall s, In s segs -> table_seg t s /\ linked t e s = true) ->
+  (validate_message_errors t lvl e m = Ok [] <-> forall s, In s segs -> conforms t s).
+Proof. exact z_message_sound_complete. Qed.
+Print Assumptions C04_z_message_sound_complete.
+
+(* every error Validator.validate(segment, reference = table entry) reports on a standard segment of a Z
+   message is reported for the message - whatever structure the segment itself carries *)
+Theorem C04_z_message_reports_segment_errors : forall t lvl e m mn s r es,
+  m_name m = Some mn -> valid_z_message_name mn = true -> In (NSeg s) (m_children m) ->
+  seg_is_z s = false -> slookup (s_name s) (t_segments t) = Some r ->
+  validate_message_errors t lvl e m = Ok es ->
+  exists es_s, validate_errors_with t e (Some r) s = Ok es_s /\ incl es_s es.
+Proof. exact z_message_reports_segment_errors. Qed.
+Print Assumptions C04_z_message_reports_segment_errors.
+
+(* ---- named errors: a single-point defect inside a standard segment s of a Z message makes the message fail
+        with the error the segment-level theorems name (rows = the rows of the segment's table entry) ---- *)
+Theorem C04_z_message_missing_required : forall t lvl e m mn s ch rows oi,
+  m_name m = Some mn -> valid_z_message_name mn = true -> In (NSeg s) (m_children m) ->
+  seg_is_z s = false -> slookup (s_name s) (t_segments t) = Some (st_reference (s_st s)) ->
+  view_of t (st_reference (s_st s)) = VSeq ch rows oi ->
+  forall vc es,
+  In (Some vc) rows -> resolve_seg s (vc_name vc) = Some (vc_name vc) ->
+  (Z.of_nat (length (named_kids f_name (s_children s) (vc_name vc))) < vc_mn vc)%Z ->
+  validate_message_errors t lvl e m = Ok es -> In (MissingRequired (Some (s_name s)) (vc_name vc)) es.
+Proof. exact z_message_missing_required. Qed.
+Print Assumptions C04_z_message_missing_required.
+
+Theorem C04_z_message_limit_exceeded : forall t lvl e m mn s ch rows oi,
+  m_name m = Some mn -> valid_z_message_name mn = true -> In (NSeg s) (m_children m) ->
+  seg_is_z s = false -> slookup (s_name s) (t_segments t) = Some (st_reference (s_st s)) ->
+  view_of t (st_reference (s_st s)) = VSeq ch rows oi ->
+  forall vc es,
+  In (Some vc) rows -> resolve_seg s (vc_name vc) = Some (vc_name vc) ->
+  vc_mx vc <> (-1)%Z -> (vc_mn vc <= vc_mx vc)%Z ->
+  (Z.of_nat (length (named_kids f_name (s_children s) (vc_name vc))) > vc_mx vc)%Z ->
+  validate_message_errors t lvl e m = Ok es -> In (LimitExceeded (Some (s_name s)) (vc_name vc)) es.
+Proof. exact z_message_limit_exceeded. Qed.
+Print Assumptions C04_z_message_limit_exceeded.
+
+(* a field the segment's table entry does not declare (a field beyond the table) *)
+Theorem C04_z_message_foreign_field : forall t lvl e m mn s ch rows oi,
+  m_name m = Some mn -> valid_z_message_name mn = true -> In (NSeg s) (m_children m) ->
+  seg_is_z s = false -> slookup (s_name s) (t_segments t) = Some (st_reference (s_st s)) ->
+  view_of t (st_reference (s_st s)) = VSeq ch rows oi ->
+  forall k es,
+  In k (s_children s) -> field_is_z k = false -> omem (f_name k) (row_names rows) = false ->
+  validate_message_errors t lvl e m = Ok es ->
+  exists names, In (InvalidChildren (Some (s_name s)) names) es /\ In (f_name k) names.
+Proof. exact z_message_foreign_field. Qed.
+Print Assumptions C04_z_message_foreign_field.
+
+(* an unknown (unnamed) field *)
+Theorem C04_z_message_unknown_field : forall t lvl e m mn s ch rows oi,
+  m_name m = Some mn -> valid_z_message_name mn = true -> In (NSeg s) (m_children m) ->
+  seg_is_z s = false -> slookup (s_name s) (t_segments t) = Some (st_reference (s_st s)) ->
+  view_of t (st_reference (s_st s)) = VSeq ch rows oi ->
+  forall k es,
+  In k (s_children s) -> f_name k = None ->
+  validate_message_errors t lvl e m = Ok es ->
+  exists names, In (InvalidChildren (Some (s_name s)) names) es /\ In None names.
+Proof. exact z_message_unknown_field. Qed.
+Print Assumptions C04_z_message_unknown_field.
+
+(* ---- the other children: a segment that is neither a Z segment nor in the segment table of the version,
+        and an unnamed group ---- *)
+Theorem C04_z_message_invalid_segment : forall t lvl e m mn s es,
+  m_name m = Some mn -> valid_z_message_name mn = true -> In (NSeg s) (m_children m) ->
+  seg_is_z s = false -> slookup (s_name s) (t_segments t) = None ->
+  validate_message_errors t lvl e m = Ok es -> In (InvalidElement (Some (s_name s))) es.
+Proof. exact z_message_invalid_segment. Qed.
+Print Assumptions C04_z_message_invalid_segment.
+
+Theorem C04_z_message_unknown_child : forall t lvl e m mn st kids es,
+  m_name m = Some mn -> valid_z_message_name mn = true -> In (NGrp None st kids) (m_children m) ->
+  validate_message_errors t lvl e m = Ok es -> In (UnknownElement (Some mn) None) es.
+Proof. exact z_message_unknown_child. Qed.
+Print Assumptions C04_z_message_unknown_child.
+
+(* ---- the hypotheses are those of every Z message rebuilt from text (build_message: Message('Zxx_Zxx') filled
+        with parse_segment(line) for every line - what parse_message does for a Z message, whose empty
+        structure hands no reference to any segment): its children are segments carrying their table
+        entries, and its log is the concatenation of the logs Segment.validate() gives for each ---- *)
+Theorem C04_z_message_built : forall t lvl e lenc n texts m lvl' e',
+  slookup (upper n) (t_messages t) = None -> valid_z_message_name n = true ->
+  build_message t lvl e lenc (Some n) (map ShSeg texts) = Ok m ->
+  exists segs, m_children m = map NSeg segs /\ (forall s, In s segs -> table_seg t s) /\
+               validate_message_log t lvl' e' m = seq_res (map (validate_seg_log t e') segs).
+Proof. exact built_z_message_segmentwise. Qed.
+Print Assumptions C04_z_message_built.
+
+(* parse_segment(text) without a reference: the segment carries the table entry of its name (or is a Z segment) *)
+Theorem C04_parsed_segment_table_seg : forall t lvl e leaf text s,
+  parse_segment t lvl e leaf text None = Ok s -> table_seg t s.
+Proof. exact parse_segment_table_seg. Qed.
+Print Assumptions C04_parsed_segment_table_seg.
+
+(* ---- what a Z message is NOT checked against: the structure it was created with.  The log does not depend
+        on m_st - so a Z message that a MESSAGE PROFILE declares is not held against the profile (a required
+        segment of the profile may be missing: recorded as a finding, see harness/c04.py z_profile_level);
+        and a Z message without children validates ---- *)
+Theorem C04_z_message_structure_ignored : forall t lvl e mn st st' kids,
+  valid_z_message_name mn = true ->
+  validate_message_log t lvl e (mk_message (Some mn) st kids) =
+  validate_message_log t lvl e (mk_message (Some mn) st' kids).
+Proof. exact z_message_structure_ignored. Qed.
+Print Assumptions C04_z_message_structure_ignored.
+
+Theorem C04_z_message_no_children : forall t lvl e m mn,
+  m_name m = Some mn -> valid_z_message_name mn = true -> m_children m = [] ->
+  validate_message_log t lvl e m = Ok [].
+Proof. exact z_message_no_children. Qed.
+Print Assumptions C04_z_message_no_children.
+
 (* ---- the public wrapper ---- *)
 Theorem C04_wrapper : forall l has_report return_errors,
   (* return_errors=True: is_valid exactly when the error list is empty *)
@@ -201,3 +372,25 @@ Example C04_F15_ADT_A17 :
   | Err _ => False
   end.
 Proof. vm_compute. split; reflexivity. Qed.
+
+(* a Z message: MSH + two standard segments + a Z segment is linked and validates (C04_z_message_built
+   applies: ZDT_Z01 is not in the message table of v2.5) *)
+Example C04_example_z_message :
+  slookup (upper "ZDT_Z01") (t_messages T25) = None /\
+  match build_message T25 TOLERANT e25 lenc25 (Some (unbs "ZDT_Z01"))
+          [ShSeg (msh25 "ZDT^Z01"); ShSeg "EVN||20200101"; ShSeg "PID|||A||N"; ShSeg "ZIN|aa|bb"] with
+  | Ok m => linked_message T25 TOLERANT e25 m = true /\ validate_message_errors T25 TOLERANT e25 m = Ok []
+  | Err _ => False
+  end.
+Proof. vm_compute. split; [reflexivity|]. split; reflexivity. Qed.
+
+(* ... without the required PID-3 and PID-5 of its PID segment the named errors of the SEGMENT level appear,
+   and nothing is said about the message level (no segment is required) *)
+Example C04_example_z_message_missing :
+  match build_message T25 TOLERANT e25 lenc25 (Some (unbs "ZDT_Z01"))
+          [ShSeg (msh25 "ZDT^Z01"); ShSeg "PID|1"; ShSeg "ZIN|aa|bb"] with
+  | Ok m => validate_message_errors T25 TOLERANT e25 m =
+              Ok [MissingRequired (Some (unbs "PID")) "PID_3"; MissingRequired (Some (unbs "PID")) "PID_5"]
+  | Err _ => False
+  end.
+Proof. vm_compute. reflexivity. Qed.
